@@ -8,6 +8,9 @@ not proved (Lean cannot reason about `Float32`): this property is partial for th
 `checkWaitRecommendation` models `P2PSession::check_wait_recommendation`.
 -/
 import GgrsModel.Model.Inventory
+import GgrsModel.Model.Sites.TimeSync
+import GgrsModel.Model.Sites.Protocol
+import GgrsModel.Model.Sites.P2pSession
 import GgrsModel.Model.P2P
 import GgrsModel.Proofs.Monad
 import GgrsModel.Proofs.Endpoint
